@@ -25,6 +25,12 @@ type c16Workload struct {
 	// ColdCodes: projects use response codes no earlier project of the process used
 	// and the solo results are computed after the concurrent run.
 	Cold bool `json:"cold"`
+	// Shared: the caller shares what a server would share between requests - one
+	// ban option value (K1) given to every project, a second ban option (K2) given
+	// to every third project, and one byte slice per distinct source text.
+	Shared bool     `json:"shared,omitempty"`
+	K1     []string `json:"k1,omitempty"`
+	K2     []string `json:"k2,omitempty"`
 }
 
 var c16CodeCounter = 205
@@ -55,6 +61,20 @@ func genWorkload(t *rapid.T) c16Workload {
 			w.Projects = append(w.Projects, vlib.Single(src))
 		}
 	}
+	if !w.Cold && rapid.IntRange(0, 2).Draw(t, "shared") == 0 {
+		w.Shared = true
+		kinds := vlib.KindNames()
+		w.K1 = rapid.SliceOfNDistinct(rapid.SampledFrom(kinds), 1, 2, rapid.ID[string]).Draw(t, "k1")
+		w.K2 = rapid.SliceOfNDistinct(rapid.SampledFrom(kinds), 1, 3, rapid.ID[string]).Draw(t, "k2")
+		// the same text several times (one shared byte slice), with escapes in quoted parameters
+		for i := 0; i < n; i++ {
+			if rapid.IntRange(0, 1).Draw(t, "dup") == 0 {
+				w.Projects[i] = w.Projects[rapid.IntRange(0, n-1).Draw(t, "dupOf")]
+			}
+		}
+		w.Projects[0] = vlib.Single("JSIGHT 0.3\nINFO\n  Title \"The \\\"Cat\\\" API \\\\ v2\"\nGET /cats\n  200 any\n")
+		w.Projects[n-1] = w.Projects[0]
+	}
 	return w
 }
 
@@ -65,10 +85,50 @@ func c16Run(w c16Workload, info *vlib.Info) *vlib.Failure {
 		info.Class("cold-start")
 	}
 	info.Sample = map[string]any{"goroutines": w.G, "projects": len(w.Projects), "first": trunc(w.Projects[0].Files["root.jst"], 400)}
+	run := func(i int) string { return resultKey(vlib.Run(w.Projects[i])) }
+	runSolo := run
+	var bufs map[string][]byte
+	if w.Shared {
+		info.Class("shared-option-and-bytes")
+		sharedOpt := vlib.BanOption(w.K1...)
+		bufs = map[string][]byte{}
+		usable := func(i int) bool {
+			p := w.Projects[i]
+			return len(p.Files) == 1 && !strings.Contains(p.Files[p.Root], "INCLUDE")
+		}
+		for i, p := range w.Projects {
+			if usable(i) {
+				bufs[p.Files[p.Root]] = []byte(p.Files[p.Root])
+			}
+		}
+		run = func(i int) string {
+			if !usable(i) {
+				return resultKey(vlib.Run(w.Projects[i]))
+			}
+			src := w.Projects[i].Files[w.Projects[i].Root]
+			f := vlib.SharedFile("root.jst", bufs[src])
+			if i%3 == 0 {
+				r, _, _ := vlib.RunShared(f, vlib.FixedSeedOption(), sharedOpt, vlib.BanOption(w.K2...))
+				return resultKey(r)
+			}
+			r, _, _ := vlib.RunShared(f, vlib.FixedSeedOption(), sharedOpt)
+			return resultKey(r)
+		}
+		runSolo = func(i int) string {
+			if !usable(i) {
+				return resultKey(vlib.Run(w.Projects[i]))
+			}
+			src := w.Projects[i].Files[w.Projects[i].Root]
+			if i%3 == 0 {
+				return resultKey(vlib.RunWithOptions(src, vlib.FixedSeedOption(), vlib.BanOption(w.K1...), vlib.BanOption(w.K2...)))
+			}
+			return resultKey(vlib.RunWithOptions(src, vlib.FixedSeedOption(), vlib.BanOption(w.K1...)))
+		}
+	}
 	solo := make([]string, len(w.Projects))
 	if !w.Cold {
-		for i, p := range w.Projects {
-			solo[i] = resultKey(vlib.Run(p))
+		for i := range w.Projects {
+			solo[i] = runSolo(i)
 		}
 	}
 	conc := make([]string, len(w.Projects))
@@ -80,7 +140,7 @@ func c16Run(w c16Workload, info *vlib.Info) *vlib.Failure {
 			defer wg.Done()
 			<-start
 			for i := g; i < len(w.Projects); i += w.G {
-				conc[i] = resultKey(vlib.Run(w.Projects[i]))
+				conc[i] = run(i)
 				runtime.Gosched()
 			}
 		}(g)
@@ -88,8 +148,13 @@ func c16Run(w c16Workload, info *vlib.Info) *vlib.Failure {
 	close(start)
 	wg.Wait()
 	if w.Cold {
-		for i, p := range w.Projects {
-			solo[i] = resultKey(vlib.Run(p))
+		for i := range w.Projects {
+			solo[i] = runSolo(i)
+		}
+	}
+	for src, b := range bufs {
+		if string(b) != src {
+			return vlib.Failf("caller-bytes-modified", "a source text shared by the projects of the workload was modified\n--- given:\n%s\n--- afterwards:\n%s", trunc(src, 600), trunc(string(b), 600))
 		}
 	}
 	for i := range w.Projects {
@@ -177,6 +242,10 @@ type collAdapter struct {
 	length      func() int
 	each        func(func(k string))
 	marshal     func() ([]byte, error)
+	// mapInc: one Map pass that increments every value (a writer of every key)
+	mapInc func()
+	// scan: the remaining readers (EachReverse, EachSafe, Find, GetValue)
+	scan func(k string)
 }
 
 func atoi(s string) int { n, _ := strconv.Atoi(s); return n }
@@ -203,6 +272,17 @@ func newColl(name string) collAdapter {
 			has: m.Has, length: m.Len,
 			each:    func(f func(string)) { _ = m.Each(func(k string, _ *catalog.Server) error { f(k); return nil }) },
 			marshal: m.MarshalJSON,
+			mapInc: func() {
+				_ = m.Map(func(_ string, v *catalog.Server) (*catalog.Server, error) {
+					return &catalog.Server{BaseUrl: strconv.Itoa(atoi(v.BaseUrl) + 1)}, nil
+				})
+			},
+			scan: func(k string) {
+				_ = m.EachReverse(func(string, *catalog.Server) error { return nil })
+				m.EachSafe(func(string, *catalog.Server) {})
+				m.Find(func(kk string, _ *catalog.Server) bool { return kk == k })
+				m.GetValue(k)
+			},
 		}
 	case "Tags":
 		m := &catalog.Tags{}
@@ -224,6 +304,15 @@ func newColl(name string) collAdapter {
 			length:  m.Len,
 			each:    func(f func(string)) { _ = m.Each(func(k catalog.TagName, _ *catalog.Tag) error { f(string(k)); return nil }) },
 			marshal: m.MarshalJSON,
+			mapInc: func() {
+				_ = m.Map(func(_ catalog.TagName, v *catalog.Tag) (*catalog.Tag, error) { return mk(atoi(v.Title) + 1), nil })
+			},
+			scan: func(k string) {
+				_ = m.EachReverse(func(catalog.TagName, *catalog.Tag) error { return nil })
+				m.EachSafe(func(catalog.TagName, *catalog.Tag) {})
+				m.Find(func(kk catalog.TagName, _ *catalog.Tag) bool { return string(kk) == k })
+				m.GetValue(catalog.TagName(k))
+			},
 		}
 	case "UserTypes":
 		m := &catalog.UserTypes{}
@@ -246,6 +335,15 @@ func newColl(name string) collAdapter {
 			has: m.Has, length: m.Len,
 			each:    func(f func(string)) { _ = m.Each(func(k string, _ *catalog.UserType) error { f(k); return nil }) },
 			marshal: m.MarshalJSON,
+			mapInc: func() {
+				_ = m.Map(func(_ string, v *catalog.UserType) (*catalog.UserType, error) { return mk(atoi(v.Annotation) + 1), nil })
+			},
+			scan: func(k string) {
+				_ = m.EachReverse(func(string, *catalog.UserType) error { return nil })
+				m.EachSafe(func(string, *catalog.UserType) {})
+				m.Find(func(kk string, _ *catalog.UserType) bool { return kk == k })
+				m.GetValue(k)
+			},
 		}
 	case "UserRules":
 		m := &catalog.UserRules{}
@@ -266,6 +364,15 @@ func newColl(name string) collAdapter {
 			has: m.Has, length: m.Len,
 			each:    func(f func(string)) { _ = m.Each(func(k string, _ *catalog.UserRule) error { f(k); return nil }) },
 			marshal: m.MarshalJSON,
+			mapInc: func() {
+				_ = m.Map(func(_ string, v *catalog.UserRule) (*catalog.UserRule, error) { return mk(atoi(v.Annotation) + 1), nil })
+			},
+			scan: func(k string) {
+				_ = m.EachReverse(func(string, *catalog.UserRule) error { return nil })
+				m.EachSafe(func(string, *catalog.UserRule) {})
+				m.Find(func(kk string, _ *catalog.UserRule) bool { return kk == k })
+				m.GetValue(k)
+			},
 		}
 	case "Directives":
 		m := &directive.Directives{}
@@ -290,6 +397,15 @@ func newColl(name string) collAdapter {
 			has: m.Has, length: m.Len,
 			each:    func(f func(string)) { _ = m.Each(func(k string, _ *directive.Directive) error { f(k); return nil }) },
 			marshal: func() ([]byte, error) { return []byte("{}"), nil },
+			mapInc: func() {
+				_ = m.Map(func(_ string, v *directive.Directive) (*directive.Directive, error) { return mk(atoi(v.Annotation) + 1), nil })
+			},
+			scan: func(k string) {
+				_ = m.EachReverse(func(string, *directive.Directive) error { return nil })
+				m.EachSafe(func(string, *directive.Directive) {})
+				m.Find(func(kk string, _ *directive.Directive) bool { return kk == k })
+				m.GetValue(k)
+			},
 		}
 	default: // Interactions
 		m := &catalog.Interactions{}
@@ -325,6 +441,17 @@ func newColl(name string) collAdapter {
 				})
 			},
 			marshal: m.MarshalJSON,
+			mapInc: func() {
+				_ = m.Map(func(kk catalog.InteractionID, v catalog.Interaction) (catalog.Interaction, error) {
+					return mk(strings.TrimPrefix(kk.Path().String(), "/"), ann(v)+1), nil
+				})
+			},
+			scan: func(k string) {
+				_ = m.EachReverse(func(catalog.InteractionID, catalog.Interaction) error { return nil })
+				m.EachSafe(func(catalog.InteractionID, catalog.Interaction) {})
+				m.Find(func(kk catalog.InteractionID, _ catalog.Interaction) bool { return kk.Path().String() == "/"+k })
+				m.GetValue(id(k))
+			},
 		}
 	}
 }
@@ -334,7 +461,7 @@ var collNames = []string{"Interactions", "Servers", "Tags", "UserTypes", "UserRu
 func genCollCase(t *rapid.T) collCase {
 	c := collCase{Coll: rapid.SampledFrom(collNames).Draw(t, "coll")}
 	g := rapid.IntRange(2, 6).Draw(t, "goroutines")
-	ops := []string{"set", "set", "settop", "update", "update", "get", "has", "len", "each", "marshal"}
+	ops := []string{"set", "set", "settop", "update", "update", "get", "has", "len", "each", "marshal", "map", "map", "scan"}
 	for i := 0; i < g; i++ {
 		n := rapid.IntRange(3, 25).Draw(t, "nops")
 		var list []collOp
@@ -358,6 +485,15 @@ func collCheck(c collCase, info *vlib.Info) *vlib.Failure {
 					writers[op.Key] = map[int]bool{}
 				}
 				writers[op.Key][g] = true
+			}
+			if op.Op == "map" {
+				info.Class("map-pass")
+				for k := 0; k < 5; k++ {
+					if writers[k] == nil {
+						writers[k] = map[int]bool{}
+					}
+					writers[k][g] = true
+				}
 			}
 		}
 	}
@@ -409,6 +545,10 @@ func collCheck(c collCase, info *vlib.Info) *vlib.Failure {
 					a.length()
 				case "each":
 					a.each(func(string) {})
+				case "map":
+					a.mapInc()
+				case "scan":
+					a.scan(k)
 				case "marshal":
 					b, err := a.marshal()
 					if err == nil && !json.Valid(b) {
@@ -467,8 +607,8 @@ func collCheck(c collCase, info *vlib.Info) *vlib.Failure {
 		want := 0
 		for _, list := range c.Ops {
 			for _, op := range list {
-				if op.Key == k && op.Op == "update" {
-					want++
+				if op.Op == "map" || (op.Key == k && op.Op == "update") {
+					want++ // a Map pass increments every value; counted keys are present from the start
 				}
 			}
 		}
@@ -482,10 +622,10 @@ func collCheck(c collCase, info *vlib.Info) *vlib.Failure {
 
 func TestC16(t *testing.T) {
 	h := vlib.New(t, "C16", "exploration",
-		"built with -race: workloads of 2-16 goroutines each creating, validating and serialising a generated list of projects (fixtures, generated valid and multi-fault documents; one third 'cold': response codes the process has not seen, solo results computed afterwards), one validated catalog read from 8 goroutines, and rapid-generated per-goroutine operation lists (Set / SetToTop / Update / Get / Has / Len / Each / MarshalJSON with yield points, 5 keys) on each locked collection type; oracle: no race report (driver reads the race detector's log), every concurrent result equals the solo result, collection invariants (every key once, Len = walked keys, no lost update, valid JSON); non-trivial = >= 2 goroutines overlapped and, for collections, a key written by >= 2 goroutines; distinct by workload",
+		"built with -race: workloads of 2-16 goroutines each creating, validating and serialising a generated list of projects (fixtures, generated valid and multi-fault documents; one third 'cold': response codes the process has not seen, solo results computed afterwards; two ninths 'sharing': one ban option value given to every project plus a second ban option for every third project, and one byte slice per distinct source text, repeated texts, escapes in quoted parameters), one validated catalog read from 8 goroutines, and rapid-generated per-goroutine operation lists (Set / SetToTop / Update / Map / Get / GetValue / Has / Len / Each / EachReverse / EachSafe / Find / MarshalJSON with yield points, 5 keys) on each locked collection type; oracle: no race report (driver reads the race detector's log), every concurrent result equals the solo result, collection invariants (every key once, Len = walked keys, no lost update, valid JSON); non-trivial = >= 2 goroutines overlapped and, for collections, a key written by >= 2 goroutines; distinct by workload",
 		"interleavings are sampled by the Go scheduler; the race detector sees only executed accesses", "UserSchemas is generated without a lock on purpose and is not part of the property")
 	defer vlib.CleanupScratch()
-	req := []string{"cold-start", "concurrent-readers", "goroutines:2", "goroutines:16"}
+	req := []string{"cold-start", "concurrent-readers", "goroutines:2", "goroutines:16", "shared-option-and-bytes", "map-pass"}
 	for _, n := range collNames {
 		req = append(req, "collection:"+n)
 	}
